@@ -880,7 +880,7 @@ func (ex *Exec) runBody(fr *frame, st0 *State, reach0 *Term) []*exit {
 				continue
 			}
 			if fc != nil && len(fc.Asserts) > 0 {
-				ex.checkAsserts(fr, fc, cur.st, cur.reach, b, ii, instr)
+				ex.checkAsserts(fr, fc, cur.st, cur.reach, b, ii, instr, false)
 			}
 			switch in := instr.(type) {
 			case *ssa.If:
@@ -906,6 +906,10 @@ func (ex *Exec) runBody(fr *frame, st0 *State, reach0 *Term) []*exit {
 				cur.reach = nreach
 				if IsFalse(nreach) {
 					terminated = true
+				}
+				if !terminated && fc != nil && len(fc.Asserts) > 0 && lastOfLine(ex.eng, b, ii) {
+					// `assert … after "text"`: the state after the last instruction of that source line
+					ex.checkAsserts(fr, fc, cur.st, cur.reach, b, ii+1, instr, true)
 				}
 			}
 			if terminated {
@@ -1254,17 +1258,17 @@ func funcKey(fn *ssa.Function) string {
 }
 
 // checkAsserts: program-point assertions anchored at a source line (the first instruction of the line in a block).
-func (ex *Exec) checkAsserts(fr *frame, fc *FuncContract, st *State, reach *Term, b *ssa.BasicBlock, idx int, instr ssa.Instruction) {
+func (ex *Exec) checkAsserts(fr *frame, fc *FuncContract, st *State, reach *Term, b *ssa.BasicBlock, idx int, instr ssa.Instruction, after bool) {
 	if _, isDbg := instr.(*ssa.DebugRef); isDbg || !instr.Pos().IsValid() {
 		return
 	}
 	p := ex.eng.fset.Position(instr.Pos())
 	line := ex.eng.sourceLine(p.Filename, p.Line)
 	for ai, a := range fc.Asserts {
-		if !strings.Contains(line, a.Anchor) {
+		if a.After != after || !strings.Contains(line, a.Anchor) {
 			continue
 		}
-		key := fmt.Sprintf("%d/%d/%d", ai, p.Line, b.Index)
+		key := fmt.Sprintf("%d/%d/%d/%v", ai, p.Line, b.Index, after)
 		if fr.assertDone == nil {
 			fr.assertDone = map[string]bool{}
 		}
@@ -1326,4 +1330,21 @@ func rangeLenOf(header *ssa.BasicBlock, phi *ssa.Phi) ssa.Value {
 		}
 	}
 	return nil
+}
+
+// lastOfLine: instruction ii of block b is the last position-bearing instruction of its source line within b.
+func lastOfLine(eng *Engine, b *ssa.BasicBlock, ii int) bool {
+	in := b.Instrs[ii]
+	if _, isDbg := in.(*ssa.DebugRef); isDbg || !in.Pos().IsValid() {
+		return false
+	}
+	line := eng.fset.Position(in.Pos()).Line
+	for j := ii + 1; j < len(b.Instrs); j++ {
+		n := b.Instrs[j]
+		if _, isDbg := n.(*ssa.DebugRef); isDbg || !n.Pos().IsValid() {
+			continue
+		}
+		return eng.fset.Position(n.Pos()).Line != line
+	}
+	return true
 }
